@@ -27,6 +27,23 @@ theorem ep_releases {fl : Flags} (hfl : fl.sitesOk = true) (m8 q : Nat) (pre bod
   refine ⟨(clean_iff_bad _).mpr hi.bad, live_nil hi (held_nil_of_slots _ hempty) ?_⟩
   rw [hl]; rfl
 
+/-- the same, for a chosen set of slots `P`: the invariant holds at the end, nothing was lost, and every
+    slot in `P` is empty (used when an entry point legitimately leaves something behind) -/
+theorem ep_empty_slots {fl : Flags} (hfl : fl.sitesOk = true) (m8 q : Nat) (pre body post : List Op)
+    (hb : ∀ op ∈ body, op.isBody = true) (P : Slot → Prop)
+    (hslots : ∀ s : Slot, P s → (∀ b, flagAfter fl m8 s b post = true) ∨
+      (s.isField = false ∧ flagAfter fl m8 s true pre = true ∧ flagAfter fl m8 s true post = true))
+    {w' : W} (h : run fl (W.init m8 q) (pre ++ body ++ post) = .ok w') :
+    Inv w' ∧ w'.lost = [] ∧ ∀ s, P s → w'.enc.get s = [] := by
+  obtain ⟨hi, hl, _⟩ := run_inv hfl _ _ _ (Inv.init m8 q) h
+  refine ⟨hi, by rw [hl]; rfl, ?_⟩
+  intro s hs
+  apply run_empty s _ _ _ true (fun _ => by cases s <;> rfl) h
+  rw [W.init_m8, flagAfter_append, flagAfter_append]
+  rcases hslots s hs with h1 | ⟨hs', h1, h2⟩
+  · exact h1 _
+  · rw [h1, body_flag fl m8 s hs' body hb, h2]
+
 /-! ### the log only grows -/
 
 theorem act_log_prefix (w : W) (a : Act) : ∃ suf, (w.act a).log = w.log ++ suf := by
